@@ -71,17 +71,14 @@ def _scenario_blocks(mods, proto, src, ep, dup_server_flight=False):
         scfg = {"version": "TLS12", "suite": 0x009c, "suite_name": "TLS_RSA_WITH_AES_128_GCM_SHA256", "records": 2, "max_len": 1, "min_len": 1, "grouping": "one"}
         items, keylog, meta = SC.build(scfg, src)
         return [(float(ts), fr) for fr, ts, *_ in P.tcp_frames(ep, items)], keylog, meta
-    qcfg = {"suite": 0x1301, "offered": [0x1301], "odcid_len": 8, "c_cid_len": 4, "s_cid_len": 8, "n_app": 2, "data_len": 1}
+    qcfg = {"suite": 0x1301, "offered": [0x1301], "odcid_len": 8, "c_cid_len": 4, "s_cid_len": 8, "n_app": 2, "data_len": 1,
+            "retransmit_server_hello": bool(dup_server_flight)}
     dgrams, keylog, meta = QS.build(qcfg, src)
     from tlv.harness import c02
     from tlv.sx.core import ctx
     c02.assume_cids_prefix_free(ctx(), meta)
     c02.assume_no_accidental_cid(ctx(), meta, dgrams)
     blocks = [(float(ts), fr) for fr, ts, _ in P.udp_frames(ep, dgrams)]
-    if dup_server_flight:
-        # the network delivers the server's first flight (Initial + Handshake: CRYPTO frames) a second time at the end of the capture
-        k = next(i for i, d in enumerate(dgrams) if d.from_server)
-        blocks.append((blocks[-1][0] + 1.0, blocks[k][1]))
     return blocks, keylog, meta
 
 
@@ -291,13 +288,10 @@ def _replay_rerun(cfg, inp):
             scfg = {"version": "TLS12", "suite": 0x009c, "suite_name": "TLS_RSA_WITH_AES_128_GCM_SHA256", "records": 2, "max_len": 1, "min_len": 1, "grouping": "one"}
             items, keylog, _ = SC.build(scfg, src)
             return e2e.concrete_frames(ep, items), keylog
-        qcfg = {"suite": 0x1301, "offered": [0x1301], "odcid_len": 8, "c_cid_len": 4, "s_cid_len": 8, "n_app": 2, "data_len": 1}
+        qcfg = {"suite": 0x1301, "offered": [0x1301], "odcid_len": 8, "c_cid_len": 4, "s_cid_len": 8, "n_app": 2, "data_len": 1,
+                "retransmit_server_hello": prefix == "a."}          # the first capture ends with a retransmitted ServerHello
         dgrams, keylog, _ = QS.build(qcfg, src)
-        pk = e2e.concrete_udp_frames(ep, dgrams)
-        if prefix == "a.":
-            k = next(i for i, dg in enumerate(dgrams) if dg.from_server)
-            pk.append((pk[k][0], pk[-1][1] + 1000000))          # the server's first flight delivered twice
-        return pk, keylog
+        return e2e.concrete_udp_frames(ep, dgrams), keylog
     d = tempfile.mkdtemp(prefix="tlv-rerun-")
     try:
         pa, ka = capture(cfg["first"], "a.", P.Endpoint(ipv=4, c_port=50000))
